@@ -83,6 +83,71 @@ def run_one(ops, mo_steps, res):
                 return ('diverge', i, {'impl': a, 'model': b})
     return None
 
+# ---- second scenario family (real objects only): states that the operation histories above do not reach ----------
+def gen_extra(rnd):
+    return {'kind': rnd.choice(['stale_index', 'renamed_asset', 'failed_add_attacker']), 'n': rnd.randint(2, 6), 'seed': rnd.getrandbits(32)}
+
+def run_extra(sc):
+    """(a) the original's name index is out of step with the current full names (a node whose full name was already in
+    use was added and removed again, or a model asset was renamed after generation): the copy must answer every
+    lookup as the original does; (b) an `add_attacker` that failed half-way left nodes compromised by an attacker that
+    is not registered: the copy must not reach that object, nor through it the original's nodes."""
+    import copy, types
+    from maltoolbox.attackgraph import AttackGraph, AttackGraphNode, Attacker
+    from maltoolbox.exceptions import AttackGraphException
+    r = random.Random(sc['seed'])
+    g = AttackGraph()
+    assets = [types.SimpleNamespace(name=nm) for nm in ('A', 'B', 'A:1')]
+    nodes = []
+    for i in range(sc['n']):
+        n = AttackGraphNode(type=r.choice(['or', 'and', 'defense']), name=r.choice(['s0', 's1', f's{i}']), ttc=None, asset=r.choice(assets + [None]))
+        if n.asset is not None and any(m.asset is n.asset and m.name == n.name for m in nodes): n.name = f'u{i}'
+        g.add_node(n); nodes.append(n)
+    for p in nodes:
+        for c in nodes:
+            if r.random() < 0.3: p.children.append(c); c.parents.append(p)
+    reg = Attacker(name='reg', entry_points=[], reached_attack_steps=[])
+    g.add_attacker(reg, entry_points=[nodes[0].id], reached_attack_steps=[nodes[0].id])
+    names = [n.full_name for n in nodes]
+    if sc['kind'] == 'stale_index':
+        v = r.choice([n for n in nodes if n.asset is not None] or nodes)
+        dup = AttackGraphNode(type='or', name=v.name, ttc=None, asset=v.asset)
+        g.add_node(dup); g.remove_node(dup)
+    elif sc['kind'] == 'renamed_asset':
+        a = r.choice(assets); a.name = a.name + '_renamed'
+        names += [n.full_name for n in nodes]
+    else:
+        bad = Attacker(name='half', entry_points=[], reached_attack_steps=[])
+        try:
+            g.add_attacker(bad, entry_points=[nodes[0].id, 987654], reached_attack_steps=[n.id for n in r.sample(nodes, r.randint(1, len(nodes)))])
+            return 'add_attacker with an unknown entry point id did not raise'
+        except AttackGraphException:
+            pass
+    cp = copy.deepcopy(g)
+    f = lambda o: None if o is None else o.id
+    for nm in names:
+        if f(g.get_node_by_full_name(nm)) != f(cp.get_node_by_full_name(nm)):
+            return f'lookup by full name answers differently in the copy ({sc["kind"]}): original {f(g.get_node_by_full_name(nm))}, copy {f(cp.get_node_by_full_name(nm))}'
+    for i in range(-1, len(nodes) + 2):
+        if f(g.get_node_by_id(i)) != f(cp.get_node_by_id(i)): return 'lookup by id answers differently in the copy'
+    if g._to_dict() != cp._to_dict(): return f'the serialized content of the copy differs from the original ({sc["kind"]})'
+    orig_objs = {id(n) for n in g.nodes} | {id(a) for a in g.attackers} | {id(a) for n in g.nodes for a in n.compromised_by}
+    own_n = {id(n) for n in cp.nodes}
+    for n in cp.nodes:
+        for a in n.compromised_by:
+            if id(a) in orig_objs: return f'a copied node is compromised by an attacker object of the original ({sc["kind"]})'
+            if any(id(x) not in own_n for x in list(a.reached_attack_steps) + list(a.entry_points)):
+                return f'an attacker referenced by the copy references a node outside the copy ({sc["kind"]})'
+        if any(id(x) not in own_n for x in list(n.children) + list(n.parents)): return 'a copied node references a node outside the copy'
+    # independence: undoing in the copy must not touch the original
+    before = g._to_dict()
+    for n in cp.nodes:
+        for a in list(n.compromised_by):
+            try: a.undo_compromise(n)
+            except Exception: pass
+    if g._to_dict() != before: return f'a change to the copy is visible in the original ({sc["kind"]})'
+    return None
+
 def gen_history(rnd):
     g = Gen(rnd, BUILD, nmax=rnd.choice([4, 6, 9]), rich=True)
     g.gen(rnd.randint(6, 25)); g.ops.pop()
@@ -122,10 +187,20 @@ def run(seed, tier, lean) -> Result:
                 res.violations.append(Violation(what=f'implementation and Lean model disagree after step {at} ({ops[at]["k"]})',
                                                 fingerprint='C14:model-divergence:' + ops[at]['k'], replay={'ops': ops[:at + 1], **info}, no_failing_input=True))
         if len(res.samples) < 2: res.samples.append({'ops': ops[:8] + ['...'] + ops[k:k + 4]})
+    rnd2 = random.Random(seed ^ 0x14C14)
+    for _ in range(300 if tier == 'quick' else 10000):
+        sc = gen_extra(rnd2)
+        res.evaluations += 1; res.bump('extra:' + sc['kind'])
+        bad = run_extra(sc)
+        if bad:
+            res.violations.append(Violation(what=bad, fingerprint='C14:extra:' + bad.split(' (')[0][:60], replay={'extra_scenario': sc, 'problem': bad}))
+            break
     return res
 
 def replay(path):
     r = json.load(open(path))
+    if 'extra_scenario' in r:
+        bad = run_extra(r['extra_scenario']); print(bad); print('VIOLATION reproduced' if bad else 'not reproduced'); return 1 if bad else 0
     bad = run_one(r['ops'], None, Result())
     print(bad); print('VIOLATION reproduced' if bad else 'not reproduced')
     return 1 if bad else 0
